@@ -200,6 +200,26 @@ def deb_commands(a, b):
     return cmds
 
 
+def ev_schedule(states):
+    """Harness commands for the node-event debouncer part of a Lifecycle behaviour (full states from -dumpTrace json)."""
+    cmds = []
+    for a, b in zip(states, states[1:]):
+        if a["debPc"] == "idle" and b["debPc"] == "locked":
+            cmds.append("deb_lock")
+        if any(a["kpc"][k] == "idle" and b["kpc"][k] != "idle" for k in a["kpc"]) and "close_start" not in cmds:
+            cmds.append("close_start")
+        qa, qb = list(a["evQ"]["node"]), list(b["evQ"]["node"])
+        if ("stop" in qb and "stop" not in qa) or (a["evMu"]["node"] != "stop" and b["evMu"]["node"] == "stop" and "stop" not in qa):
+            cmds.append("stop_queued")
+        if a["evTimer"]["node"] == "armed" and b["evTimer"]["node"] == "fired":
+            cmds.append("timer_fire")
+        if ("fl" in qb and "fl" not in qa) or (a["evMu"]["node"] != "fl" and b["evMu"]["node"] == "fl" and "fl" not in qa):
+            cmds.append("flusher_queued")
+        if a["debPc"] == "locked" and b["debPc"] == "idle":
+            cmds.append("deb_unlock")
+    return cmds
+
+
 def deb_proj_of_state(s):
     """The debouncer projection of a full Lifecycle state (as dumped by -dumpTrace json)."""
     return dict(stopped=s["rdStopped"], hasbc=s["rdHasBc"], bc=s["rdBc"], now=s["rdNow"], timer=s["rdTimer"],
@@ -269,6 +289,8 @@ DEFECT_EXHIBITS = [
     ("Lifecycle_x_latepool.cfg", "AllClosedAfterClose", "a pool created by a refresh after policyConnPool.Close is never closed"),
     ("Lifecycle_x_selfwait.cfg", "deadlock", "reconnect run inline on the refresh flusher waits for the flusher itself"),
     ("Lifecycle_x_reconnwin.cfg", "AllClosedAfterClose", "a control connection installed by reconnect after controlConn.close is never closed"),
+    ("Lifecycle_x_evstoplock.cfg", "deadlock", "eventDebouncer.stop holding e.mu over the quit hand-off deadlocks with a flusher woken by its timer"),
+    ("Lifecycle_x_evsynccb.cfg", "temporal", "an event handler run by the flusher under e.mu makes Session.Close wait for the handler"),
     ("Lifecycle_x_dropbc.cfg", "deadlock", "a flusher that drops the pending broadcaster on stop leaves its listeners waiting"),
 ]
 
@@ -354,6 +376,22 @@ def run(ctx):
     cex_sched = deb_schedule(cex_states, 0, "cex")
     ctx.log("deadlock counterexample (%d states) -> schedule: %s" % (
         len(cex_states), " ".join("%s%s" % (s["cmd"], (":" + s["who"]) if s["who"] else "") for s in cex_sched["steps"])))
+
+    # the deadlock of eventDebouncer.stop() holding e.mu, in the sub-graph whose steps can be forced without a hook between the
+    # flusher's select and its Lock (EvEager): -> commands for the real eventDebouncer / the Session's node-event debouncer
+    evcex = os.path.join(ctx.tmp, "cex_evstop.json")
+    rev = vf.run_tlc(ctx, "Lifecycle", "Lifecycle_x_evstoplock_eager.cfg", workers=1, timeout=300,
+                     extra=["-noGenerateSpecTE", "-dumpTrace", "json", evcex])
+    if rev.violated != "deadlock" or not os.path.exists(evcex):
+        raise vf.Inconclusive("Lifecycle.tla with Defect_EvStopUnderLock = TRUE (EvEager) did not produce the deadlock counterexample "
+                              "(violated=%s error=%s)" % (rev.violated, rev.error))
+    note(rev, "Lifecycle_x_evstoplock_eager")
+    ev_cmds = ev_schedule([x[1] for x in json.load(open(evcex))["counterexample"]["state"]])
+    if "deb_lock" not in ev_cmds or "timer_fire" not in ev_cmds or "deb_unlock" not in ev_cmds:
+        raise vf.Inconclusive("the event-debouncer counterexample has no forceable schedule any more: %s" % ev_cmds)
+    evsp = os.path.join(ctx.tmp, "ev_schedule.json")
+    json.dump(ev_cmds, open(evsp, "w"))
+    ctx.log("event-debouncer deadlock counterexample (%d states) -> schedule: %s" % (len(json.load(open(evcex))["counterexample"]["state"]), " ".join(ev_cmds)))
 
     # simulation walks of the repaired debouncer protocol
     nsim = 60 if quick else 600
@@ -461,7 +499,8 @@ def run(ctx):
                             env={"VF_SCHEDULES": psp, "VF_TRACES": ptr, "VF_PAR": 8 if quick else 12}, timeout=900, check=False),
         "deb": pool.submit(vf.run_gotest, ctx, binary, "^TestVfC17Debouncer$",
                            env={"VF_SCHEDULES": dsp, "VF_TRACES": dtr, "VF_PAR": 8, "VF_WATCHDOG_MS": 1500}, timeout=900, check=False),
-        "scen": pool.submit(vf.run_gotest, ctx, binary, "^TestVfC17Scenarios$", env={"VF_TRACES": scn}, timeout=300, check=False),
+        "scen": pool.submit(vf.run_gotest, ctx, binary, "^TestVfC17Scenarios$", env={"VF_TRACES": scn, "VF_EV_SCHEDULE": evsp},
+                            timeout=900, check=False),
         "policy": pool.submit(vf.run_gotest, ctx, binary, "^TestVfC17PolicyPool$",
                               env={"VF_TRACES": os.path.join(ctx.tmp, "policy_traces.ndjson"), "VF_TRIALS": 90 if quick else 300},
                               timeout=600, check=False),
@@ -704,7 +743,10 @@ def run(ctx):
         note(r, cfg)
     for f, (cfg, expect, what) in zip(exh, DEFECT_EXHIBITS):
         r, _ = f.result()
-        if r.violated != expect:
+        got = r.violated
+        if (got or "").startswith("temporal") or (got is None and re.search(r"Temporal propert(y|ies) .*violated", r.out)):
+            got = "temporal"
+        if got != expect:
             raise vf.Inconclusive("model %s should exhibit %s (%s) but gave violated=%s error=%s" % (cfg, expect, what, r.violated, r.error))
         note(r, cfg)
     for f, (cfg, expect) in zip(exh_pool2, POOL_EXHIBITS):
